@@ -124,6 +124,10 @@ def decompose(st, total, chunk):
             if diff is not None:
                 st.decomp[key] = (k2 + diff, d2)
                 return st.decomp[key]
+    off = decompose_offset(st, total, chunk)
+    if off is not None and off[0] is None:
+        st.decomp[key] = (off[1], off[2])
+        return st.decomp[key]
     k = Lin.sym(T.fresh("k"))
     d = Lin.sym(T.fresh("d"))
     # definitional equality: if the total contains a plain symbol with coefficient +-1 (a length
@@ -142,6 +146,36 @@ def decompose(st, total, chunk):
     st.F.saturate()
     st.decomp[key] = (k, d)
     return k, d
+
+
+def decompose_offset(st, total, chunk):
+    """total = (known t2 = k2*chunk + d2) + q*chunk + r with r a constant: the quotient is k2 + q
+    when 0 <= d2 + r < chunk, one less / more after a borrow / carry.  Returns (None, k, d) when the
+    facts decide, (cond, (k, d), (k', d')) when it hinges on `cond` = no borrow / no carry, else None."""
+    total = st.F.canon(lin(total))
+    chunk = lin(chunk)
+    for (t2, c2), (k2, d2) in list(st.decomp.items()):
+        if c2 != chunk:
+            continue
+        delta = total - t2
+        r = delta.c
+        q = (delta - r).div_sym(chunk)
+        if q is None or r == 0:
+            continue
+        d = d2 + r
+        F = st.F
+        if F.prove_ge(d) and F.prove_ge(chunk - 1 - d):
+            return (None, k2 + q, d)
+        if r < 0 and F.prove_ge(chunk + d):
+            if F.prove_ge(-d - 1):
+                return (None, k2 + q - 1, d + chunk)
+            if F.prove_ge(chunk - 1 - d):
+                return (("ge", d), (k2 + q, d), (k2 + q - 1, d + chunk))
+        if r > 0 and F.prove_ge(2 * chunk - 1 - d) and F.prove_ge(d):
+            if F.prove_ge(d - chunk):
+                return (None, k2 + q + 1, d - chunk)
+            return (("lt", d - chunk), (k2 + q, d), (k2 + q + 1, d - chunk))
+    return None
 
 
 def fork_on(st, cond):
@@ -382,6 +416,12 @@ def slice_len(ip, st, ci):
     return vsize(count_of(st, ip.tlen(st, tg), esz))
 
 
+@prim("RangeInclusive::<Idx>::new")
+def range_inclusive_new(ip, st, ci):
+    a, b = ci["args"]
+    return vstruct("core::ops::RangeInclusive", {"start": a, "end": b, "exhausted": vbool(False)})
+
+
 @prim("Array::len")
 def array_len(ip, st, ci):
     tg = tg_of(ci["args"][0])
@@ -411,8 +451,12 @@ def _index(ip, st, ci):
         hi = idx[2]["end"][1]
     elif idx[0] == "struct" and idx[1].endswith("RangeFrom"):
         lo = idx[2]["start"][1]
-    elif idx[0] == "zst" and idx[1].endswith("RangeFull"):
+    elif idx[0] in ("zst", "struct") and idx[1].endswith("RangeFull"):
         pass
+    elif idx[0] == "struct" and idx[1].endswith("RangeToInclusive"):
+        hi = idx[2]["end"][1] + 1
+    elif idx[0] == "struct" and idx[1].endswith("RangeInclusive") and "start" in idx[2] and "end" in idx[2]:
+        lo, hi = idx[2]["start"][1], idx[2]["end"][1] + 1
     else:
         raise Undecided("index by %s %s" % (idx[0], idx[1] if len(idx) > 1 else ""))
     hb = total if hi is None else hi * esz
@@ -492,7 +536,7 @@ def iter_next(ip, st, ci):
         return _iter_step(ip, st, ci, False)
     if mode[0] == "probe":
         it = ip.load(st, tg_of(ci["args"][0]))
-        raise LoopProbe(it)
+        raise LoopProbe(it, tg_of(ci["args"][0]))
     if mode[0] == "iter":
         it = ip.load(st, tg_of(ci["args"][0]))
         return [(s2, vsome(e)) for s2, e in iter_elem_multi(ip, st, it, Lin.sym(mode[1]))]
@@ -537,8 +581,76 @@ def iter_next_back(ip, st, ci):
 
 
 class LoopProbe(Exception):
-    def __init__(self, it):
+    def __init__(self, it, tg=None):
         self.it = it
+        self.tg = tg
+
+
+def iter_breaks(ip, st, it):
+    """indices at which the element formula of an iterator changes (the seam of a `chain`), in the
+    index space of `it`; a loop over it is summarised segment by segment between them."""
+    k = it[1]
+    if k == "chain":
+        na = iter_count(ip, st, it[2])
+        return iter_breaks(ip, st, it[2]) + [na] + [na + x for x in iter_breaks(ip, st, it[3])]
+    if k == "zip":
+        return iter_breaks(ip, st, it[2]) + iter_breaks(ip, st, it[3])
+    if k in ("enumerate", "copied", "take", "map"):
+        return iter_breaks(ip, st, it[2])
+    if k in ("skip", "win"):
+        return [x - it[3] for x in iter_breaks(ip, st, it[2])]
+    if k == "rev":
+        n = iter_count(ip, st, it[2])
+        return [n - x for x in iter_breaks(ip, st, it[2])]
+    if k == "ref":
+        return iter_breaks(ip, st, ip.load(st, it[2]))
+    return []
+
+
+def iter_segments(ip, st, it):
+    """[(state, [(lo, count), ...])]: the index range [0, N) of `it` cut at its breakpoints; the order
+    of a breakpoint relative to 0 and N is decided from the facts or by a case split."""
+    N = iter_count(ip, st, it)
+    brks = []
+    for b in iter_breaks(ip, st, it):
+        if not any(st.F.prove_eq(b - x) for x in brks):
+            brks.append(b)
+    if not brks:
+        return [(st, [(ZERO, N)])]
+    if len(brks) > 2:
+        raise Undecided("iterator with %d seams" % len(brks))
+    states = [(st, [])]
+    for b in brks:
+        nxt = []
+        for s, cuts in states:
+            for s2, inside in _fork_inside(s, b, N):
+                nxt.append((s2, cuts + ([b] if inside else [])))
+        states = nxt
+    out = []
+    for s, cuts in states:
+        if len(cuts) == 2 and not s.F.le(cuts[0], cuts[1]):
+            if s.F.le(cuts[1], cuts[0]):
+                cuts = [cuts[1], cuts[0]]
+            else:
+                raise Undecided("order of iterator seams %r" % (cuts,))
+        pts = [ZERO] + cuts + [N]
+        out.append((s, [(pts[i], pts[i + 1] - pts[i]) for i in range(len(pts) - 1)]))
+    return out
+
+
+def _fork_inside(st, b, N):
+    """is the seam b a cut point of [0, N)?  0 <= b <= N provable: yes, without a case split (a
+    segment may then be empty); otherwise split on 0 < b < N."""
+    if st.F.prove_ge(b) and st.F.prove_ge(N - b):
+        return [(st, True)]
+    res = []
+    for s1, pos in fork_on(st, ("ge", b - 1)):
+        if not pos:
+            res.append((s1, False))
+            continue
+        for s2, below in fork_on(s1, ("ge", N - 1 - b)):
+            res.append((s2, below))
+    return res
 
 
 @prim("core::slice::<impl [T]>::copy_from_slice")
@@ -715,6 +827,20 @@ def _call_closure(ip, st, ci, clo, args):
             hops += 1
         if pv[0] == "closure":
             byref, clo = clo, pv
+    if clo[0] == "fn":
+        # a non-capturing closure used as a zero-sized constant, or a function item as callback
+        cr0 = crate(ci)
+        b0 = cr0.by_path.get(clo[1]["path"])
+        if b0 is not None and b0.get("kind") == "closure":
+            clo = ("closure", clo[1]["path"], [], tuple(sorted(ip.tyenv[-1].items())))
+        else:
+            ci2 = dict(ci)
+            ci2["fn"] = clo[1]
+            ci2["args"] = list(args)
+            ci2["argops"] = [(ci.get("argops") or [{"k": "const"}])[0]] * len(args)
+            ci2.setdefault("term", {"span": {"file": "?", "line": 0}, "dest": None})
+            ci2.setdefault("bb", 0)
+            return ip.call(st, ci2)
     if clo[0] != "closure":
         raise Undecided("callee is %s, not a closure" % clo[0])
     cr = crate(ci)
@@ -733,7 +859,7 @@ def _call_closure(ip, st, ci, clo, args):
     a = [self_arg] + list(args)
     if body["arg_count"] == 2 and len(args) != 1:
         a = [self_arg, ("tuple", list(args))]
-    return ip.inline(st, cr, body, a, ci["fr"].depth + 1)
+    return ip.inline(st, cr, body, a, ci["fr"].depth + 1, env0=dict(clo[3]) if len(clo) > 3 else dict(ip.tyenv[-1]))
 
 
 @prim("ops::Try::branch")
@@ -869,6 +995,118 @@ def _to_bytes(endian):
 for _e in ("be", "le", "ne"):
     prim("::from_%s_bytes" % _e)(_from_bytes(_e))
     prim("::to_%s_bytes" % _e)(_to_bytes(_e))
+
+
+def _endian_conv(endian, direction):
+    """x.to_be() / x.to_le(): the integer whose NATIVE bytes are the be/le encoding of x;
+    uN::from_be(x) / from_le(x): the integer whose be/le encoding is the native bytes of x."""
+    def f(ip, st, ci):
+        v = ci["args"][0]
+        if v[0] != "int":
+            raise Undecided("endianness conversion of %s" % v[0])
+        w = v[1][1]
+        if direction == "to":
+            return vint(T.ifrombytes("ne", w, T.itobytes(endian, v[1], st.F), st.F))
+        return vint(T.ifrombytes(endian, w, T.itobytes("ne", v[1], st.F), st.F))
+    f.__name__ = "%s_%s" % (direction, endian)
+    return f
+
+
+for _e in ("be", "le"):
+    prim(">::to_%s" % _e)(_endian_conv(_e, "to"))
+    prim(">::from_%s" % _e)(_endian_conv(_e, "from"))
+
+
+@prim("core::mem::take")
+def mem_take(ip, st, ci):
+    """take(&mut x): returns x and leaves Default::default() — the empty slice for a slice
+    reference, zero for integers and byte arrays."""
+    a = tg_of(ci["args"][0])
+    old = ip.load(st, a)
+    if old[0] == "ref" and old[1].path and old[1].path[-1][0] == "br":
+        br = old[1].path[-1]
+        ip.store(st, a, ("ref", Target(old[1].cell, old[1].path[:-1] + (("br", br[1], ZERO),))))
+    elif old[0] == "bytes":
+        ip.store(st, a, vbytes(T.bzero(T.blen(old[1]))))
+    elif old[0] == "size":
+        ip.store(st, a, vsize(ZERO))
+    elif old[0] == "int":
+        ip.store(st, a, vint(T.iconst(old[1][1], 0)))
+    elif old[0] == "enum" and old[1].endswith("Option"):
+        ip.store(st, a, vnone())
+    else:
+        raise Undecided("mem::take of %s" % old[0])
+    return old
+
+
+@prim("core::bool::<impl bool>::then", "core::bool::<impl bool>::then_some")
+def bool_then(ip, st, ci):
+    b, x = ci["args"]
+    if b[0] != "bool":
+        raise Undecided("bool::then on %s" % b[0])
+    lazy = ci["fn"]["name"] == "then"
+    out = []
+    c = b[1]
+    cases = [(st, c == ("true",))] if c in (("true",), ("false",)) else (fork_on(st, c) if c[0] in ("ge", "lt", "eq", "ne") else None)
+    if cases is None:
+        raise Undecided("bool::then on an undecidable condition")
+    for s2, yes in cases:
+        if not yes:
+            out.append((s2, vnone()))
+        elif lazy:
+            for s3, r in _call_closure(ip, s2, ci, x, []):
+                out.append((s3, vsome(r)))
+        else:
+            out.append((s2, vsome(x)))
+    return out
+
+
+@prim("Option::<T>::ok_or")
+def option_ok_or(ip, st, ci):
+    v, e = ci["args"]
+    if v[0] != "enum":
+        raise Undecided("ok_or on %s" % v[0])
+    if v[3] == "Some":
+        return venum("core::result::Result", 0, "Ok", [v[4][0]])
+    return venum("core::result::Result", 1, "Err", [e])
+
+
+@prim("Option::<T>::ok_or_else")
+def option_ok_or_else(ip, st, ci):
+    v, clo = ci["args"]
+    if v[0] != "enum":
+        raise Undecided("ok_or_else on %s" % v[0])
+    if v[3] == "Some":
+        return venum("core::result::Result", 0, "Ok", [v[4][0]])
+    return [(s2, venum("core::result::Result", 1, "Err", [r])) for s2, r in _call_closure(ip, st, ci, clo, [])]
+
+
+@prim("Option::<T>::take")
+def option_take(ip, st, ci):
+    a = tg_of(ci["args"][0])
+    old = ip.load(st, a)
+    if old[0] != "enum":
+        raise Undecided("Option::take of %s" % old[0])
+    ip.store(st, a, vnone())
+    return old
+
+
+@prim("Option::<T>::map_or", "Result::<T, E>::map_or")
+def option_map_or(ip, st, ci):
+    v, d, clo = ci["args"]
+    if v[0] != "enum":
+        raise Undecided("map_or on %s" % v[0])
+    if v[3] in ("Some", "Ok"):
+        return _call_closure(ip, st, ci, clo, [v[4][0]])
+    return d
+
+
+@prim("Option::<T>::unwrap_or_default", "Result::<T, E>::unwrap_or_default")
+def option_unwrap_or_default(ip, st, ci):
+    v = ci["args"][0]
+    if v[0] == "enum" and v[3] in ("Some", "Ok"):
+        return v[4][0]
+    raise Undecided("unwrap_or_default on %s" % (v[3] if v[0] == "enum" else v[0]))
 
 
 @prim("<impl usize>::div_ceil")
@@ -1045,6 +1283,15 @@ def option_is(ip, st, ci):
 @prim("Option::<T>::unwrap_or", "Result::<T, E>::unwrap_or")
 def option_unwrap_or(ip, st, ci):
     v, d = ci["args"]
+    if v[0] == "symopt" and v[1][0] == "checked" and len(v[1]) == 5 and d[0] == "int":
+        _, op, r, a, b = v[1]
+        # x.checked_add(1).unwrap_or(0): the only overflowing case is x == MAX, where x + 1 wraps to 0
+        if op == "checked_add" and not d[1][3] and d[1][2] == 0 and ((not b[1][3] and b[1][2] == 1) or (not a[1][3] and a[1][2] == 1)):
+            return r
+        # x.checked_sub(1).unwrap_or(MAX): the only overflowing case is x == 0, where x - 1 wraps to MAX
+        if op == "checked_sub" and not d[1][3] and d[1][2] == (1 << d[1][1]) - 1 and not b[1][3] and b[1][2] == 1:
+            return r
+        return vint(T.ifn(d[1][1], "checked_or_default", r[1], d[1]))
     if v[0] != "enum":
         raise Undecided("unwrap_or on %s" % v[0])
     return v[4][0] if v[3] in ("Some", "Ok") else d
@@ -1246,6 +1493,66 @@ def slice_get(ip, st, ci):
     return out
 
 
+def _const_generic(ci):
+    """value of the (single) const generic argument of the callee, as a Lin."""
+    for a in ci["fn"].get("resolved", ci["fn"]).get("args", []) + ci["fn"].get("args", []):
+        if "const" in a:
+            c = a["const"]
+            if isinstance(c, int):
+                return lin(c)
+            if isinstance(c, str) and c.strip().split("_")[0].isdigit():
+                return lin(int(c.strip().split("_")[0]))
+    raise Undecided("const generic argument of %s" % ci["fn"]["path"])
+
+
+@prim("core::slice::<impl [T]>::split_first_chunk", "core::slice::<impl [T]>::split_first_chunk_mut",
+      "core::slice::<impl [T]>::split_last_chunk", "core::slice::<impl [T]>::split_last_chunk_mut",
+      "core::slice::<impl [T]>::first_chunk", "core::slice::<impl [T]>::first_chunk_mut",
+      "core::slice::<impl [T]>::last_chunk", "core::slice::<impl [T]>::last_chunk_mut")
+def split_chunk(ip, st, ci):
+    """split_first_chunk::<N>() -> Option<(&[T; N], &[T])> and its siblings."""
+    tg = tg_of(ci["args"][0])
+    esz = ip.sizeof(crate(ci), fn_targs(ci)[0])
+    n = _const_generic(ci) * esz
+    total = ip.tlen(st, tg)
+    name = ci["fn"]["name"]
+    out = []
+    for s2, fits in fork_on(st, ("ge", total - n)):
+        if not fits:
+            out.append((s2, vnone()))
+            continue
+        first = name.startswith(("split_first", "first"))
+        chunk = vref(ip.br(tg, ZERO, n) if first else ip.br(tg, total - n, n))
+        rest = vref(ip.br(tg, n, total - n) if first else ip.br(tg, ZERO, total - n))
+        if name.startswith("split_first"):
+            out.append((s2, vsome(("tuple", [chunk, rest]))))
+        elif name.startswith("split_last"):
+            out.append((s2, vsome(("tuple", [rest, chunk]))))
+        else:
+            out.append((s2, vsome(chunk)))
+    return out
+
+
+@prim("ops::BitXor::bitxor", "ops::BitXorAssign::bitxor_assign")
+def op_bitxor(ip, st, ci):
+    """`a ^ b` / `a ^= b` through the operator traits (reference operands)."""
+    a, b = ci["args"]
+    assign = ci["fn"]["name"] == "bitxor_assign"
+    dst = None
+    if assign:
+        dst = tg_of(a)
+        a = ip.load(st, dst)
+    while a[0] == "ref":
+        a = ip.load(st, a[1])
+    while b[0] == "ref":
+        b = ip.load(st, b[1])
+    r = ip.binop(st, ci["fr"], "BitXor", a, b)
+    if assign:
+        ip.store(st, dst, r)
+        return vunit()
+    return r
+
+
 @prim("ops::Fn::call", "ops::FnMut::call_mut", "ops::FnOnce::call_once")
 def fn_call(ip, st, ci):
     f = ci["args"][0]
@@ -1287,7 +1594,17 @@ def checked_arith(ip, st, ci):
         if r is None:
             r = T.ifn(a[1][1], "Mul", a[1], b[1])
         # None exactly when the w-bit operation overflows: not decidable for symbolic operands
-        return ("symopt", ("checked", op, vint(r)))
+        return ("symopt", ("checked", op, vint(r), a, b))
+    raise Undecided("%s on %s,%s" % (op, a[0], b[0]))
+
+
+@prim("::overflowing_add", "::overflowing_sub")
+def overflowing_arith(ip, st, ci):
+    a, b = ci["args"]
+    op = ci["fn"]["name"]
+    if a[0] == "int" and b[0] == "int":
+        r = T.iadd(a[1], b[1]) if op == "overflowing_add" else T.isub(a[1], b[1])
+        return ("tuple", [vint(r), ("bool", ("opaque", "int-overflow", op, T.ishow(a[1]), T.ishow(b[1])))])
     raise Undecided("%s on %s,%s" % (op, a[0], b[0]))
 
 
@@ -1374,6 +1691,44 @@ def array_from_fn(ip, st, ci):
     return [(s, s.heap[cell]) for s in states]
 
 
+@prim("Iterator::collect", "iter::FromIterator::from_iter")
+def iter_collect(ip, st, ci):
+    """collect() into a hybrid-array `Array` (its FromIterator panics unless the iterator yields exactly
+    as many items as the array has elements): element i is item i."""
+    from .loops import summarise_call_loop
+    cr = crate(ci)
+    dty = dest_ty(ip, ci)
+    if not ip.is_bytes_ty(cr, dty) or cr.types[dty]["k"] != "adt":
+        raise Undecided("collect into %s" % cr.types[dty]["s"])
+    it = _as_iter(ip, st, ci, ci["args"][0], ci["argops"][0])
+    if iter_breaks(ip, st, it):
+        raise Undecided("collect of a chained iterator")
+    esz = ip.sizeof(cr, ip.elem_ty(cr, dty))
+    total = ip.sizeof(cr, dty)
+    n = count_of(st, total, esz)
+    N = iter_count(ip, st, it)
+    ok = st.F.prove_eq(N - n)
+    oblig(st, ci, "len:collect", ok, "iterator yields %r items for an array of %r" % (N, n))
+    if not ok:
+        st.F.add_eq(N - n)
+    cell = ("tmp", "collect%d" % len(st.heap))
+    st.heap[cell] = vbytes(T.bzero(total))
+
+    def runner(s, idx):
+        out = []
+        for s2, r in iter_elem_multi(ip, s, it, idx):
+            if r[0] == "ref":
+                raise Undecided("collect of references")
+            r = ip.encode(s2, r)
+            if r[0] != "bytes":
+                raise Undecided("collected element is %s" % r[0])
+            ip.store(s2, Target(cell, (("br", lin(idx) * esz, esz),)), r)
+            out.append(s2)
+        return out
+    states = summarise_call_loop(ip, st, ci["fr"], n, runner)
+    return [(s, s.heap[cell]) for s in states]
+
+
 @prim("core::num::<impl u8>::rotate_left", "::saturating_add", "::saturating_sub", "::saturating_mul", "::swap_bytes", "::reverse_bits", "::pow", "::leading_zeros")
 def int_opaque(ip, st, ci):
     a = ci["args"][0]
@@ -1400,8 +1755,23 @@ def usize_opaque(ip, st, ci):
 def iter_for_each(ip, st, ci):
     """for_each(closure): summarised like a loop whose body is one call of the closure per element."""
     from .loops import summarise_call_loop
-    it = _as_iter(ip, st, ci, ci["args"][0], ci["argops"][0])
+    it0 = _as_iter(ip, st, ci, ci["args"][0], ci["argops"][0])
     clo = ci["args"][1]
+    results = []
+    for s0, segs in iter_segments(ip, st, it0):
+        states = [s0]
+        for lo, cnt in segs:
+            seg_it = it0 if len(segs) == 1 else ("iter", "win", it0, lo, cnt)
+            nxt = []
+            for s in states:
+                nxt.extend(_for_each_segment(ip, s, ci, seg_it, clo))
+            states = nxt
+        results.extend(states)
+    return [(s, vunit()) for s in results]
+
+
+def _for_each_segment(ip, st, ci, it, clo):
+    from .loops import summarise_call_loop
     N = iter_count(ip, st, it)
 
     def runner(s, idx):
@@ -1419,8 +1789,7 @@ def iter_for_each(ip, st, ci):
                 raise Undecided("for_each with %s callback" % clo[0])
             out.extend(s3 for s3, _ in res)
         return out
-    states = summarise_call_loop(ip, st, ci["fr"], N, runner)
-    return [(s, vunit()) for s in states]
+    return summarise_call_loop(ip, st, ci["fr"], N, runner)
 
 
 @prim("Iterator::skip", "Iterator::take")
@@ -1430,6 +1799,110 @@ def iter_skip_take(ip, st, ci):
     if k[0] != "size":
         raise Undecided("skip/take count")
     return ("iter", ci["fn"]["name"], a, k[1])
+
+
+class _Ctx(dict):
+    """the part of a call context an adaptor needs later (hashable by identity)."""
+
+    def __init__(self, fr):
+        dict.__init__(self, fr=fr)
+
+    def __hash__(self):
+        return id(self)
+
+
+@prim("Iterator::map")
+def iter_map(ip, st, ci):
+    a = _as_iter(ip, st, ci, ci["args"][0], ci["argops"][0])
+    return ("iter", "map", a, ci["args"][1], _Ctx(ci["fr"]))
+
+
+@prim("Iterator::step_by")
+def iter_step_by(ip, st, ci):
+    a = _as_iter(ip, st, ci, ci["args"][0], ci["argops"][0])
+    k = ci["args"][1]
+    if k[0] != "size" or not st.F.prove_ge(k[1] - 1):
+        raise Undecided("step_by with a step not known to be positive")
+    return ("iter", "step_by", a, k[1])
+
+
+@prim("Iterator::nth")
+def iter_nth(ip, st, ci):
+    tg = tg_of(ci["args"][0])
+    it = ip.load(st, tg)
+    k = ci["args"][1]
+    if it[0] != "iter" or k[0] != "size":
+        raise Undecided("nth on %s" % it[0])
+    N = iter_count(ip, st, it)
+    out = []
+    for s2, inside in fork_on(st, ("ge", N - 1 - k[1])):
+        if not inside:
+            ip.store(s2, tg, ("iter", "win", it, N, ZERO))
+            out.append((s2, vnone()))
+            continue
+        for s3, e in iter_elem_multi(ip, s2, it, k[1]):
+            ip.store(s3, tg, ("iter", "win", it, k[1] + 1, N - k[1] - 1))
+            out.append((s3, vsome(e)))
+    return out
+
+
+@prim("Iterator::last")
+def iter_last(ip, st, ci):
+    it = _as_iter(ip, st, ci, ci["args"][0], ci["argops"][0])
+    N = iter_count(ip, st, it)
+    out = []
+    for s2, nonempty in fork_on(st, ("ge", N - 1)):
+        if not nonempty:
+            out.append((s2, vnone()))
+            continue
+        for s3, e in iter_elem_multi(ip, s2, it, N - 1):
+            out.append((s3, vsome(e)))
+    return out
+
+
+@prim("Iterator::count", "ExactSizeIterator::len")
+def iter_len(ip, st, ci):
+    v = ci["args"][0]
+    it = ip.load(st, v[1]) if v[0] == "ref" else v
+    if it[0] != "iter":
+        return None
+    return vsize(iter_count(ip, st, it))
+
+
+@prim("core::slice::<impl [T]>::windows")
+def slice_windows(ip, st, ci):
+    tg = tg_of(ci["args"][0])
+    n = ci["args"][1]
+    esz = ip.sizeof(crate(ci), fn_targs(ci)[0])
+    total = ip.tlen(st, tg)
+    cnt_el = count_of(st, total, esz)
+    ok = st.F.prove_ge(n[1] - 1)
+    oblig(st, ci, "nonzero:windows", ok, "%r != 0" % (n[1],))
+    out = []
+    for s2, some in fork_on(st, ("ge", cnt_el - n[1])):
+        out.append((s2, ("iter", "windows", tg, esz, n[1], (cnt_el - n[1] + 1) if some else ZERO)))
+    return out
+
+
+@prim("core::slice::<impl [T]>::chunks_mut", "core::slice::<impl [T]>::chunks")
+def slice_chunks(ip, st, ci):
+    """chunks(n): the whole chunks followed, when the length is not a multiple, by the shorter rest."""
+    tg = tg_of(ci["args"][0])
+    n = ci["args"][1]
+    esz = ip.sizeof(crate(ci), fn_targs(ci)[0])
+    total = ip.tlen(st, tg)
+    chunk = n[1] * esz
+    ok = st.F.prove_ge(chunk - 1)
+    oblig(st, ci, "nonzero:chunks", ok, "%r != 0" % (chunk,))
+    k, d = decompose(st, total, chunk)
+    whole = ("iter", "chunks", tg, total, chunk, k, d)
+    out = []
+    for s2, rest in fork_on(st, ("ge", d - 1)):
+        if rest:
+            out.append((s2, ("iter", "chain", whole, ("iter", "once", vref(ip.br(tg, k * chunk, d))))))
+        else:
+            out.append((s2, whole))
+    return out
 
 
 @prim("Iterator::copied", "Iterator::cloned")
@@ -1455,6 +1928,18 @@ def iter_count(ip, st, it):
         return it[5]
     if k == "once":
         return ONE
+    if k == "map":
+        return iter_count(ip, st, it[2])
+    if k == "windows":
+        return it[5]
+    if k == "step_by":
+        n = iter_count(ip, st, it[2])
+        q, r = decompose(st, n, it[3])
+        if st.F.prove_eq(r):
+            return q
+        if st.F.prove_ge(r - 1):
+            return q + 1
+        raise Undecided("step_by over a length whose remainder is undecided")
     if k == "irange":
         if it[4] is None:
             raise Undecided("unbounded integer range")
@@ -1516,6 +2001,15 @@ def iter_elem_multi(ip, st, it, i):
     """[(state, element i)] — adaptors such as chain need a case split on the index."""
     k = it[1]
     i = lin(i)
+    if k == "map":
+        out = []
+        for s2, e in iter_elem_multi(ip, st, it[2], i):
+            out.extend(_call_closure(ip, s2, it[4], it[3], [e]))
+        return out
+    if k == "windows":
+        return [(st, vref(ip.br(it[2], i * it[3], it[4] * it[3])))]
+    if k == "step_by":
+        return iter_elem_multi(ip, st, it[2], i * it[3])
     if k == "irange":
         return [(st, vint(T.iadd(it[3], T.isize(it[2], i))))]
     if k == "urange":
